@@ -1,6 +1,7 @@
 package consensus
 
 import (
+	"go.sia.tech/core/types"
 	"go.sia.tech/core/internal/vh"
 )
 
@@ -116,4 +117,40 @@ func VH_C10_V2BlockEphemeral() {
 	vh.Assert(vh.Implies(above, kind == 0), "ephemeral siafund parent accepted at or after the ephemeral-output height")
 	ms.ApplyV2Transaction(t2)
 	vh.Reach("second-applied")
+}
+
+// the covered-field range check compares every index list with the length of
+// ITS OWN field (lists of pairwise different lengths make a mix-up visible)
+func VH_C10_CoveredFieldsInRange() {
+	vh.NoPanic()
+	var t types.Transaction
+	t.SiacoinInputs = make([]types.SiacoinInput, 1)
+	t.SiacoinOutputs = make([]types.SiacoinOutput, 2)
+	t.FileContracts = make([]types.FileContract, 3)
+	t.FileContractRevisions = make([]types.FileContractRevision, 4)
+	t.StorageProofs = make([]types.StorageProof, 5)
+	t.SiafundInputs = make([]types.SiafundInput, 6)
+	t.SiafundOutputs = make([]types.SiafundOutput, 7)
+	t.MinerFees = make([]types.Currency, 8)
+	t.ArbitraryData = make([][]byte, 9)
+	t.Signatures = make([]types.TransactionSignature, 10)
+	var cf types.CoveredFields
+	for _, l := range []*[]uint64{&cf.SiacoinInputs, &cf.SiacoinOutputs, &cf.FileContracts, &cf.FileContractRevisions, &cf.StorageProofs,
+		&cf.SiafundInputs, &cf.SiafundOutputs, &cf.MinerFees, &cf.ArbitraryData, &cf.Signatures} {
+		*l = make([]uint64, 1)
+	}
+	vh.Fill("cf", &cf)
+	cf.WholeTransaction = vh.Choice("whole", 2) == 1
+	got := coveredFieldsInRange(t, cf)
+	want := cf.Signatures[0] < 10
+	if !cf.WholeTransaction {
+		want = vh.And(want, cf.SiacoinInputs[0] < 1, cf.SiacoinOutputs[0] < 2, cf.FileContracts[0] < 3, cf.FileContractRevisions[0] < 4, cf.StorageProofs[0] < 5,
+			cf.SiafundInputs[0] < 6, cf.SiafundOutputs[0] < 7, cf.MinerFees[0] < 8, cf.ArbitraryData[0] < 9)
+	}
+	vh.Assert(got == want, "coveredFieldsInRange does not compare each index list with the length of its own field")
+	if got {
+		vh.Reach("in-range")
+	} else {
+		vh.Reach("out-of-range")
+	}
 }
